@@ -124,6 +124,35 @@ CHECKS["C12"] = dict(
     technique="Lean 4 theorems over a byte-level model with uninterpreted crypto + differential correspondence with real crypto",
     design="§5 C12")
 
+RTR_TIE = ("Tie: the real packets.c / rtr.c / transport.c (static functions reached by #include, the real rtr_fsm_start in its own thread) run on a scripted "
+           "transport with a fake clock; every transport call, sleep, state callback, table dump at open() is compared line by line with the model's "
+           "trace on thousands of mutated responses (sync level) and reactive conversations with fault schedules (state-machine level); the property's "
+           "own oracle is evaluated on the implementation's trace. ")
+RTR_NOTE = TB + ("Tables are the abstract sets justified by C02/C10; thread cancellation is not modelled (the script ends by a stop request observed in recv); "
+                 "the transport delivers at least one byte per successful call; unaligned 32-bit loads in packets.c are tolerated (-fno-sanitize=alignment).")
+CHECKS["C03"] = dict(
+    text="Proof: for every socket state, every pair of duplicate-free tables and every transport script, rtr_sync (model syncG) either succeeds - then "
+         "every buffered Prefix/Router-Key PDU was applied in order to the previous tables (or, for a reload, to the tables without this cache's records), "
+         "the serial is the End of Data's, the session the one both PDUs carry - or fails - then the tables are exactly as before with the same next query, or "
+         "all of this cache's records are gone and a Reset Query is pending; records of other caches are never touched (sync_success, sync_failure, "
+         "others_untouched; key lemma forward_undo: a forward-order undo that succeeds at every step restores). " + RTR_TIE,
+    note=RTR_NOTE, technique="Lean 4 refinement/invariant proofs over an executable model of rtr_sync + differential correspondence + trace oracle",
+    design="§5 C03")
+CHECKS["C05"] = dict(
+    text="Proof: the query the state machine sends is a function of the session part (Reset Query iff a new session is requested, else Serial Query with "
+         "the stored session and serial: connecting_query / reset_query); a successful synchronisation sets it to the session and serial of its End of Data, "
+         "whose session equals the Cache Response's and the established one (after_eod, foreign_session_refused); every other iteration leaves it unchanged or "
+         "turns it into a Reset Query (stable_until); Cache Reset, no-data, expiry and stop force a Reset Query (reset_causes). " + RTR_TIE,
+    note=RTR_NOTE, technique="Lean 4 invariant over every iteration of the state-machine model + differential correspondence + trace oracle",
+    design="§5 C05")
+CHECKS["C13"] = dict(
+    text="Proof: over any run (any reconnects, any script) the version never rises and stays supported (version_monotone); it changes only in the three "
+         "legitimate places - first PDU of a connection with a lower supported version, Unsupported-Version error report with a lower version (then FAST_RECONNECT), "
+         "hang-up before any session exists (then FAST_RECONNECT); every PDU handed on for processing carries the socket's version unless it is an Error Report, "
+         "a mismatching header is answered with code 8 and not read further; End of Data formats per version (eod_format). " + RTR_TIE,
+    note=RTR_NOTE, technique="Lean 4 monotonicity/invariant proofs over the receive path and the state-machine model + differential correspondence + trace oracle",
+    design="§5 C13")
+
 NOT_YET = {}
 
 
